@@ -1,6 +1,6 @@
 #!/bin/sh
 # soak: every claimed check under several seeds (quick tier); prints one line per run.  Not registered in MANIFEST.
-cd /verif || exit 2
+cd "$(dirname "$0")" || exit 2
 ids=$(python3 -c "import json;print(' '.join(c['property_id'] for c in json.load(open('MANIFEST.json'))['checks']))")
 for s in ${SEEDS:-1 2 3 5 8 13}; do
   for id in $ids; do
